@@ -33,6 +33,7 @@ import (
 	"github.com/bufbuild/buf/private/bufpkg/bufmodule/bufmoduletesting"
 	"github.com/bufbuild/buf/private/bufpkg/bufparse"
 	"github.com/bufbuild/buf/private/pkg/slogext"
+	"github.com/bufbuild/buf/private/pkg/storage"
 	"github.com/bufbuild/bufverif/internal/enum"
 	"github.com/bufbuild/bufverif/internal/evid"
 )
@@ -158,7 +159,7 @@ func run(r *evid.Run) {
 		"A/agree/targeting", "A/agree/v1-object-data",
 		"A/perturb/content/module", "A/perturb/content/non-module", "A/perturb/rename/module", "A/perturb/rename/non-module",
 		"A/perturb/add/module", "A/perturb/add/non-module", "A/perturb/remove/module", "A/perturb/remove/non-module",
-		"A2/byte-replacements",
+		"A2/byte-replacements", "A2/large-content-agree/backend-disk", "A2/large-content-agree/backend-tar", "A2/large-content-agree/backend-zip",
 		"B/cases", "B/cases-with-transitive-dep", "B/cases-mixed-local-remote", "B/agree/local", "B/agree/remote", "B/agree/omni",
 		"B/perturb/dependent-changed", "B/perturb/independent-unchanged", "B/pinned-digest-change/detected", "B/pinned-digest-change/rekeyed",
 		"B/dep-order-not-sorted-as-given",
@@ -586,6 +587,7 @@ func inAlphabet(files map[string]string) bool {
 
 func (e *explorer) observeMemo(files map[string]string) obsVal {
 	if e.memo == nil || !inAlphabet(files) {
+		e.r.Eval(1)
 		return e.observe(files)
 	}
 	key := compactKey(files)
@@ -600,7 +602,10 @@ func (e *explorer) observeMemo(files map[string]string) obsVal {
 	}
 	v := e.observe(files)
 	sh.mu.Lock()
-	sh.m[key] = memoEntry{mfKey: compactKey(refModuleFiles(files)), v: v}
+	if _, dup := sh.m[key]; !dup { // two workers may have digested the same neighbour; count it once
+		sh.m[key] = memoEntry{mfKey: compactKey(refModuleFiles(files)), v: v}
+		e.r.Eval(1)
+	}
 	sh.mu.Unlock()
 	return v
 }
@@ -610,7 +615,6 @@ func (e *explorer) observeMemo(files map[string]string) obsVal {
 func (e *explorer) observe(files map[string]string) obsVal {
 	var out obsVal
 	ctx := e.ctx
-	e.r.Eval(1)
 	if b, err := memBucket(files); err == nil {
 		if mods, err := buildSet(ctx, []modSpec{{bucket: b, bucketID: "bkt", target: true}}, []int{0}, cacheNone); err == nil {
 			out.set(0, digestOf(mods[0], "b4").s)
@@ -835,15 +839,32 @@ func buildSetOmni(ctx context.Context, specs []modSpec, contents []map[string]st
 // ---------------------------------------------------------------------------------------------
 // part A2: every single-byte replacement
 
+// briefFiles shortens long contents for violation records.
+func briefFiles(files map[string]string) map[string]string {
+	out := make(map[string]string, len(files))
+	for p, c := range files {
+		if len(c) > 200 {
+			c = fmt.Sprintf("<%d bytes, shake256 %s…>", len(c), refShakeHex([]byte(c))[:16])
+		}
+		out[p] = c
+	}
+	return out
+}
+
 func (e *explorer) partBytes() {
 	r := e.r
 	long := strings.Repeat("0123456789abcdef", 9)[:137] // crosses the SHAKE256 rate of 136 bytes
+	hugeBytes := make([]byte, 70001)                     // crosses the 32 KiB copy buffer twice
+	for i := range hugeBytes {
+		hugeBytes[i] = byte(i*7 + i/251)
+	}
+	huge := string(hugeBytes)
 	type base struct {
 		files map[string]string
 		path  string
 	}
 	var bases []base
-	for _, content := range []string{"a", "abc", long} {
+	for _, content := range []string{"a", "abc", long, huge} {
 		bases = append(bases,
 			base{map[string]string{"a.proto": content}, "a.proto"},
 			base{map[string]string{"a.proto": "", "LICENSE": content}, "LICENSE"},
@@ -857,7 +878,15 @@ func (e *explorer) partBytes() {
 	}
 	var items []item
 	for _, b := range bases {
-		for pos := 0; pos < len(b.files[b.path]); pos++ {
+		n := len(b.files[b.path])
+		if n > 1000 {
+			// large content: positions around the hash rate and the copy-buffer boundaries only
+			for _, pos := range []int{0, 135, 136, 32767, 32768, 65535, 65536, n - 1} {
+				items = append(items, item{b, pos})
+			}
+			continue
+		}
+		for pos := 0; pos < n; pos++ {
 			items = append(items, item{b, pos})
 		}
 	}
@@ -865,23 +894,35 @@ func (e *explorer) partBytes() {
 	r.ParallelFor(len(items), 0, func(i int) {
 		it := items[i]
 		t := tally{}
+		e.r.Eval(1)
 		before := e.observe(it.b.files)
 		orig := it.b.files[it.b.path]
+		large := len(orig) > 1000
 		seen := map[string]string{}
 		for x, name := range obsNames {
 			seen[name+"|"+before.str(x)] = "original"
 		}
-		step := 1
-		if len(orig) > 3 && r.Quick() {
-			step = 17 // long content: 15 replacement values per position in the quick tier, all 255 in thorough
+		values := make([]int, 0, 255)
+		switch {
+		case large:
+			values = append(values, 0x01, 0x80, 0xff)
+		case len(orig) > 3 && r.Quick():
+			for v := 1; v < 256; v += 17 { // long content: 15 replacement values per position in the quick tier, all 255 in thorough
+				values = append(values, v)
+			}
+		default:
+			for v := 1; v < 256; v++ {
+				values = append(values, v)
+			}
 		}
-		for v := 1; v < 256; v += step {
+		for _, v := range values {
 			nb := []byte(orig)
 			nb[it.pos] ^= byte(v)
 			f := cloneFiles(it.b.files)
 			f[it.b.path] = string(nb)
+			e.r.Eval(1)
 			after := e.observe(f)
-			t.add("A2/byte-replacements", 1)
+			t.add("A2/byte-replacements", "A2/large-content-agree/backend-disk", "A2/large-content-agree/backend-tar", "A2/large-content-agree/backend-zip", 1)
 			mf := refModuleFiles(f)
 			wants := [3]string{refB4(mf, nil), refB5(mf, nil), refB5(mf, nil)}
 			for x, name := range obsNames {
@@ -892,20 +933,60 @@ func (e *explorer) partBytes() {
 				}
 				if got == "" {
 					e.r.Violate("digest-error/byte-replacement/"+name, "no digest after a single-byte replacement",
-						caseA{Part: "A2", Files: f, Config: name})
+						caseA{Part: "A2", Files: briefFiles(f), Config: name})
 					continue
 				}
 				if got != want {
 					e.r.Violate("refdigest/"+dt+"/"+diagnose(dt, got, f, nil, nil), "digest differs from the reference construction",
-						caseA{Part: "A2", Files: f, Config: name, Want: want, Got: got})
+						caseA{Part: "A2", Files: briefFiles(f), Config: name, Want: want, Got: got})
 				}
 				if prev, dup := seen[name+"|"+got]; dup {
 					e.r.Violate("sensitivity/insensitive/"+refRole(it.b.path, f), "two contents differing in one byte have the same digest",
-						caseA{Part: "A2", Files: it.b.files, Files2: f, Config: name, Got: got, Perturb: fmt.Sprintf("byte %d of %q xor %#x (same digest as %s)", it.pos, it.b.path, v, prev)})
+						caseA{Part: "A2", Files: briefFiles(it.b.files), Files2: briefFiles(f), Config: name, Got: got, Perturb: fmt.Sprintf("byte %d of %q xor %#x (same digest as %s)", it.pos, it.b.path, v, prev)})
 				}
 				seen[name+"|"+got] = fmt.Sprintf("xor %#x", v)
+			}
+			if large {
+				// large contents also go through the disk, tar and zip backends
+				e.largeBackends(t, f, wants, fmt.Sprintf("a2-%d-%d", i, v))
 			}
 		}
 		e.merge(t)
 	})
+}
+
+func (e *explorer) largeBackends(t tally, files map[string]string, wants [3]string, id string) {
+	ctx := e.ctx
+	dir := filepath.Join(e.scratch, id)
+	defer os.RemoveAll(dir)
+	backends := []struct {
+		name string
+		mk   func() (storage.ReadBucket, error)
+	}{
+		{"backend-disk", func() (storage.ReadBucket, error) { return diskBucket(dir, files) }},
+		{"backend-tar", func() (storage.ReadBucket, error) { return tarRoundTrip(ctx, files) }},
+		{"backend-zip", func() (storage.ReadBucket, error) { return zipRoundTrip(ctx, files, true) }},
+	}
+	for _, be := range backends {
+		e.r.Eval(1)
+		b, err := be.mk()
+		if err != nil {
+			e.r.Incomplete(be.name + " (large content): " + err.Error())
+			continue
+		}
+		mods, err := buildSet(ctx, []modSpec{{bucket: b, bucketID: "bkt", target: true}}, []int{0}, cacheNone)
+		if err != nil {
+			e.r.Violate("build-error/"+be.name+"/"+errClass(err), "building the module set failed: "+err.Error(), caseA{Part: "A2", Files: briefFiles(files), Config: be.name, Err: err.Error()})
+			continue
+		}
+		for x, dt := range []string{"b4", "b5"} {
+			o := digestOf(mods[0], dt)
+			if o.s != wants[x] {
+				e.r.Violate("invariance/"+be.name+"/"+dt+"/large-content", "digest of a module with a large file differs from the reference on this backend",
+					caseA{Part: "A2", Files: briefFiles(files), Config: be.name, Digest: dt, Want: wants[x], Got: o.s, Err: fmt.Sprint(o.err)})
+				continue
+			}
+			t.add("A2/large-content-agree/"+be.name, 1)
+		}
+	}
 }
